@@ -512,10 +512,10 @@ def repo_prims(repo, base=None, unroll=64):
                 fn = None
             if fn is not None and not fn.args.vararg and not fn.args.kwarg:
                 names = [a.arg for a in fn.args.args]
-                if names and names[0] in ("self", "cls"):
-                    names = None
                 if names is not None:
                     syms = [T.sym("NUM_@%s@%d" % (name, i)) for i in range(len(names))]
+                    if names and names[0] in ("self", "cls"):
+                        syms[0] = T.sym("self")        # the receiver stays symbolic: a method that reads its object's state is not executable this way
                     dfl = [None] * (len(names) - len(fn.args.defaults))
                     for d_ in fn.args.defaults:
                         if isinstance(d_, ast.Constant) and isinstance(d_.value, (int, float)) and not isinstance(d_.value, bool):
@@ -533,6 +533,8 @@ def repo_prims(repo, base=None, unroll=64):
             return None
         e2 = {"$memo": {}}
         for i_, s_ in enumerate(ent[0]):
+            if s_ == T.sym("self"):
+                continue
             if i_ < len(t) - 2:
                 e2[s_] = eval_exact(t[2 + i_], env, prims)
             elif ent[2][i_] is not None:
